@@ -659,13 +659,13 @@ func FunctionMap() map[string]physical.FunctionDetails {
 						}
 
 						return func(values []octosql.Value) (octosql.Value, error) {
-							pattern := strings.ToLower(values[1].Str)
+							pattern := values[1].Str
 
 							var reg *regexp.Regexp
 							if cached, ok := regexpCache.Get(pattern); ok {
 								reg = cached.(*regexp.Regexp)
 							} else {
-								compiled, err := regexp.Compile(pattern)
+								compiled, err := regexp.Compile("(?i)" + pattern)
 								if err != nil {
 									return octosql.Value{}, fmt.Errorf("couldn't compile ~ pattern regexp expression: '%s': %w", pattern, err)
 								}
@@ -674,7 +674,7 @@ func FunctionMap() map[string]physical.FunctionDetails {
 								regexpCache.Set(pattern, compiled, 1)
 							}
 
-							return octosql.NewBoolean(reg.MatchString(strings.ToLower(values[0].Str))), nil
+							return octosql.NewBoolean(reg.MatchString(values[0].Str)), nil
 						}
 					}(),
 				},
